@@ -156,8 +156,11 @@ def parseCfg (s : String) : Option Cfg :=
     | _ => none
   | _ => none
 
+/-- `a` is a parsed target (trimmed here once), `b` a configuration of the run, whose half-tapes are
+    always trimmed (`consT` never stores a trailing blank): plain list equality, which stops at the
+    first difference (comparing up to trailing blanks cell by cell made long sweeps quadratic). -/
 def cfgSame (a b : Cfg) : Bool :=
-  a.state == b.state && a.scan == b.scan && trimEq a.left b.left && trimEq a.right b.right
+  a.state == b.state && a.scan == b.scan && a.left == b.left && a.right == b.right
 
 /-- search the given configurations (strings in `showCfg` format), in order, along the L0
     trajectory within `budget` steps; returns how many were found and the steps at which. -/
@@ -165,7 +168,7 @@ def matchSeq (p : Prog) (budget : Nat) (targets : List String) : String := Id.ru
   let mut c : Cfg := Cfg.init
   let mut n := 0
   let mut found : Array Nat := #[]
-  let mut rest := targets.filterMap parseCfg
+  let mut rest := (targets.filterMap parseCfg).map fun t => { t with left := trimList t.left, right := trimList t.right }
   if rest.length != targets.length then return "bad-targets"
   let mut halted := false
   while !rest.isEmpty && n ≤ budget && !halted do
